@@ -390,8 +390,8 @@ def r9(ctx, r):
             t = show(c)
             cp = common.cmp_parts(c)
             if cp:
-                sides = {show(strip_casts(cp[1])), show(strip_casts(cp[2]))}
-                return sides == {"_tasks.size()", "_maxQueueSize"} and cp[0] in (">=", ">", "==")
+                co = common.cmp_oriented(c, lambda x: show(strip_casts(x)) == "_maxQueueSize")
+                return co is not None and show(strip_casts(co[1])) == "_tasks.size()" and co[0] in (">=", ">", "==")
             # flag tests: the accepting / shutdown / state flags, possibly negated or loaded
             return any(w in t for w in ("_accepting", "_shutdown", "_stopping", "_draining", "_state")) and not any(w in t for w in ("size()", "owns_lock", "try_lock"))
         ok = bool(blk_pred) and all(allowed(b.cond) for b in blk_pred)
